@@ -24,6 +24,10 @@ EXTRA = [
     "int a[] = {}; void g() { return; }" if False else "void g() { return; }",
     "typedef int T; T f(T (*p)(T), ...);",
     'char *w = L"wide" L"r";  char *m = "a" "b\'c";',
+    # coordinates far beyond everyday sizes: a 70 000-character line, huge line numbers, long file names
+    "int t[] = {" + "0x00, " * 14000 + "0};\nint after_table;",
+    "# 65536 \"f.c\"\nint a;\n# 4294967296 \"g.h\"\nint b;\n# 1099511627776 \"" + "d/" * 300 + "h.h\"\nint c;\n# 0 \"z\"\nint d;",
+    " " * 65535 + "int x;" + " " * 70000 + "int y;",
 ]
 
 
@@ -112,7 +116,7 @@ def _dump_of(t):
 
 def run(ctx):
     texts = [t for t in progs.pool(ctx, scale=0.3) if len(t) < 5000] + EXTRA
-    ctx.rule(progs.RULE + "; plus programs with quotes, backslashes and non-ASCII characters in literals, empty blocks and absent children: eval(repr(ast)) in the namespace of c_ast (structural equality, generated text), pickle protocols 2..HIGHEST and copy.deepcopy (equality incl. coordinates, generated text, no shared node objects, mutation independence); repr text compared with the Lean model of __repr__ for ASCII programs")
+    ctx.rule(progs.RULE + "; plus programs with quotes, backslashes and non-ASCII characters in literals, empty blocks and absent children, and coordinates beyond 16 / 32 bits (a 70 000-character line, line numbers up to 2^40, a 600-character file name): eval(repr(ast)) in the namespace of c_ast (structural equality, generated text), pickle protocols 2..HIGHEST and copy.deepcopy (equality incl. coordinates, generated text, no shared node objects, mutation independence); repr text compared with the Lean model of __repr__ for ASCII programs")
     res = pmap(check, texts)
     ascii_idx = [i for i, t in enumerate(texts) if res[i] is not None and t.isascii()]
     dumps = pmap(_dump_of, [texts[i] for i in ascii_idx])
